@@ -316,3 +316,68 @@ def confirm_checker(rp, resp):
     if not real_accepts and resp["valid_tour"]:
         return True, f"the real {p['kind']} checker REJECTS the valid tour {p['rec']}: {resp['verdict']}"
     return False, "real checker and ground truth agree"
+
+
+def sampler_job(job_id, kind="kopt", n=5, k_max=3, source_filter=None):
+    """every move produced by the environment's OWN random-move sampler (`_random_action`: k sequential draws under the
+    sampler's own masks; each `multinomial` draw is an arbitrary index of positive probability) turns an arbitrary valid
+    tour into a valid tour"""
+    from . import decoding as DEC
+
+    E = explore.EXP
+    ctx = core.Ctx(job_id)
+    w = world.make_world(source_filter=source_filter)
+    env, gs = _mk_env(w, kind, n, k_max)
+    ctx.bounds = {"env": kind, "nodes": gs, "k_max": k_max, "what": "one move drawn by env._random_action from an arbitrary valid tour"}
+    ctx.stubs.update(["torch.rand: arbitrary values in [0,1)", "softmax: contract stub (order preserving; zero exactly on -inf entries and on entries more than 105 below the row maximum: float32 underflow, which the sampler's -1e20 / -1e30 masking relies on)",
+                      "multinomial: any index of positive probability"])
+    ctx.assumptions.add("pre-state: arbitrary single cycle (PDP: pickups before deliveries) with its visiting-time record")
+    holder = {}
+
+    def cexb(E_, neg):
+        if E_.check(neg) == z3.sat:
+            m = E_.model()
+            return [{"kind": "script", "path": core.ROOT + "/vf/torch_side", "module": "improve_side", "func": "run_move", "model_kind": "plain", "mode": "C09",
+                     "params": {"kind": kind, "n": n, "k_max": k_max, "rec": [int(core.model_value(m, x)) for x in holder["rec"]], "sampled": True,
+                                "action": [int(core.model_value(m, x)) for x in holder["act"].a[0]] if holder.get("act") is not None else None}}]
+        return []
+
+    def harness():
+        rec, order = sym_tour(E, "s", gs, pdp=(kind == "pdp"))
+        holder["rec"], holder["act"] = rec, None
+        sol = T.Tensor(np.array([rec], dtype=object), T.int64)
+        td = TensorDict({"visited_time": _visited_time(order, gs), "rec_current": sol, "rec_best": sol.clone(), "action_record": T.zeros(1, gs, gs // 2)}, batch_size=[1])
+        old_hook, T.SOFTMAX_HOOK = T.SOFTMAX_HOOK, DEC.softmax_stub
+        DEC.UNDERFLOW[0] = True  # the sampler masks with -1e20 / -1e30, i.e. relies on exp underflowing to 0 in float32
+        try:
+            act = env._random_action(td)
+        except ENV_ERRORS as e:
+            ctx.prove(E, f"{kind}: the move sampler raises {type(e).__name__}: {str(e)[:60]}", False, cexb)
+            return
+        finally:
+            T.SOFTMAX_HOOK = old_hook
+            DEC.UNDERFLOW[0] = False
+        E.obligations = []
+        holder["act"] = act
+        try:
+            nxt = env._local_operator(sol, act)
+        except ENV_ERRORS as e:
+            ctx.prove(E, f"{kind}: applying a sampled move raises {type(e).__name__}: {str(e)[:60]}", False, cexb)
+            return
+        if E.obligations:
+            obs, E.obligations = E.obligations, []
+            ctx.prove(E, f"{kind}: index preconditions of the move operator on a sampled move ({obs[0][0]}, ...)", z3.And(*[_bool(c) for _, c in obs]), cexb)
+        ok, seen = single_cycle(list(nxt.a[0]), gs)
+        ctx.prove(E, f"{kind} n={gs} k_max={k_max}: a move drawn by the environment's own sampler turns a valid tour into a single cycle through all nodes", ok, cexb)
+        if kind == "pdp":
+            ctx.prove(E, f"{kind} n={gs}: after a sampled move every pickup is still visited before its delivery", s_or(s_not(ok), precedence_ok(seen, gs)), cexb)
+        ctx.states += 1
+        ctx.transitions += 1
+
+    try:
+        E.run(harness)
+    except explore.Inconclusive as e:
+        return ctx.result(E, w, status="inconclusive", error=str(e))
+    if not ctx.obligations:
+        return ctx.result(E, w, status="error", error="vacuous")
+    return ctx.result(E, w)
